@@ -807,6 +807,9 @@ func (fv *FnVerifier) applyContract(fc *FuncContract, obj *types.Func, sig *type
 		}
 	}
 	for _, h := range fc.Holds {
+		if fv.lemmaMode {
+			break // lemmas compose functional contracts; the lock discipline is checked at the real call sites
+		}
 		e, _ := ParseExpr(h)
 		sub := *ce
 		sub.self = &args[0]
@@ -814,6 +817,9 @@ func (fv *FnVerifier) applyContract(fc *FuncContract, obj *types.Func, sig *type
 		fv.oblige("lock", "held:"+callee, reach, "(= "+lockTerm(st, k)+" 2)", pos, "callee requires "+h+" held for writing")
 	}
 	for _, h := range fc.HoldsR {
+		if fv.lemmaMode {
+			break
+		}
 		e, _ := ParseExpr(h)
 		sub := *ce
 		sub.self = &args[0]
